@@ -14,8 +14,10 @@ Oracle : reference model of the output chain (vf.pipeline.model_output) per LLM-
            * whatever output-rail invocations happened on an LLM text follow the configured order.
 Not asserted (DESIGN 4/C02 S): output rails on messages produced by rails themselves or on predefined messages;
          an LLM text that is generated but never uttered (no obligation arises); Colang 2.x rewriting.
-Known on the unchanged tree: C02-F1 (v2 `$output_rails_in_progress` sticks after an abort), C02-F11 (shipped
-         `self check output` + enable_rails_exceptions keeps the blocked text) - see `known`.
+Found by this check on the original tree and fixed in /repo since: C02-F1 (v2 `$output_rails_in_progress` stuck after an
+         abort, later turns skipped the output rails), C02-F11 (shipped `self check output` + enable_rails_exceptions
+         kept the blocked text).  `known` still recognises exactly these two signatures (it only matters if one of
+         them is ever listed as open again).
 """
 from hypothesis import strategies as st
 
